@@ -42,15 +42,18 @@ func ruleLeafListReplace(c *Ctx, r *Report) {
 	for i, g := range gens {
 		arm := c.enclosingCase(f, g)
 		key := fmt.Sprintf("ytypes.unmarshalLeafList:arm#%d:clear-before-elements", i+1)
-		if arm == nil {
-			r.Und(key, c.Pos(g.Pos()), "element loop is not inside an encoding arm")
-			continue
+		// the region the element loop belongs to: its encoding arm, or — when the arms only
+		// collect the elements and one shared tail stores them — the function body.
+		var region ast.Node = f.Decl.Body
+		if arm != nil {
+			arms[arm] = true
+			region = arm
 		}
-		arms[arm] = true
 		loop := c.EnclosingLoop(f, g)
 		var clr *ast.CallExpr
 		for _, cl := range clears {
-			if c.enclosingCase(f, cl) == arm && loop != nil && cl.End() < loop.Pos() && c.EnclosingLoop(f, cl) == nil && len(c.factsWithin(f, cl, arm)) == 0 {
+			sameRegion := c.enclosingCase(f, cl) == arm
+			if sameRegion && loop != nil && cl.End() < loop.Pos() && c.EnclosingLoop(f, cl) == nil && len(c.factsWithin(f, cl, region)) == 0 {
 				clr = cl
 			}
 		}
@@ -61,15 +64,28 @@ func ruleLeafListReplace(c *Ctx, r *Report) {
 		}
 		// no successful return in the arm before the clear.
 		n := 0
-		for _, rs := range returnsOf(arm) {
+		for _, rs := range returnsOf(region) {
 			if rs.Pos() < clr.Pos() && len(rs.Results) == 1 && isNilConst(info, rs.Results[0]) {
+				if arm == nil {
+					// in the function body the one admissible success before the clear is the
+					// absent (nil) value, judged below with the other returns outside the arms.
+					absent := false
+					for _, ft := range c.FactsAt(f, rs, false) {
+						if ft.Kind == "cond" && ft.Pos && len(CallsIn(info, ft.Cond, P("util")+".IsValueNil")) > 0 && mentionsParam(f, ft.Cond, 2) {
+							absent = true
+						}
+					}
+					if absent {
+						continue
+					}
+				}
 				n++
 				r.Bad(fmt.Sprintf("ytypes.unmarshalLeafList:arm#%d:success-before-clear#%d", i+1, n), c.Pos(rs.Pos()),
 					"unmarshalLeafList returns success from an encoding arm before clearing the slice: for the inputs on that path (e.g. an empty JSON array) a mentioned leaf-list keeps its old contents")
 			}
 		}
 		if n == 0 {
-			r.OK(fmt.Sprintf("ytypes.unmarshalLeafList:arm#%d:no-success-before-clear", i+1), c.Pos(arm.Pos()), "only error returns precede the clear")
+			r.OK(fmt.Sprintf("ytypes.unmarshalLeafList:arm#%d:no-success-before-clear", i+1), c.Pos(region.Pos()), "only error returns precede the clear")
 		}
 	}
 	// successful returns outside the arms.
